@@ -348,6 +348,8 @@ def main() -> int:
             for e in im.get("errors", []):
                 if e["exc"]["type"] not in ("SyntaxError", "ModuleNotFoundError", "ImportError"):
                     vd.violation("dependant_kept_broken:import_error", f"{bases[bi][0]}: {e['module']}: {e['exc']['type']}: {e['exc']['msg'][:200]}", w)
+                elif e["exc"]["type"] in ("ModuleNotFoundError", "ImportError") and e["module"].split(".")[0] + "." in (e["exc"].get("msg") or ""):
+                    vd.violation("dependant_kept_broken:missing_module", f"{bases[bi][0]}: {e['module']}: {e['exc']['msg'][:200]} (a generated module refers to a sibling that was not written)", w)
             for u in im.get("unresolved", []):
                 if "Zq" not in json.dumps(u):
                     continue
